@@ -121,8 +121,153 @@ def constraint(prog, run):
                    witness="row-reversal", file=f, node=target[0], config=cfg)
 
 
+def normal_equations(prog, run):
+    """R-normal-eq: the reduced normal equations of the estimator, as far as the shape of the code shows them -
+         Ro = Xo^H Xo,  So = Xo^H Yo,  To = Yo^H Yo,  M += To - So^H Ro^-1 So   summed over the ROWS of the spectrum (reference outputs o),
+         row f of Yo = -kron(row f of Xo, column f of Sy[o]).
+    An anchor as much as a rule: when the assembly is written another way (contractions, batched products) nothing is read off it and the
+    property is undecided here - a silent pass would claim what was not looked at."""
+    run.rule("R-normal-eq", "pLSCF: Ro = Xo^H Xo, So = Xo^H Yo, To = Yo^H Yo, M accumulates To - So^H Ro^-1 So over the reference rows of the spectrum; "
+             "Yo = -kron(basis row, spectrum column)", 5)
+    fi = prog.func("functions.plscf.pLSCF")
+    f = rel(prog.mods[fi.mod].path)
+    pos = astq.params_of(fi.node)[0]
+    pSy = pos[0]
+
+    def strip(e):
+        while isinstance(e, ast.Call) and astq.callee_name(prog, fi, e) in ("numpy.real", "numpy.asarray", "numpy.array") and len(e.args) == 1:
+            e = e.args[0]
+        return e
+
+    def atoms(e):
+        """[(text of the atom without conjugation, inverted, transposed)] - conj() is dropped: Hermitian and plain transposition have one shape"""
+        import copy as _copy
+
+        class _NoConj(ast.NodeTransformer):
+            def visit_Call(self, c):
+                self.generic_visit(c)
+                if isinstance(c.func, ast.Attribute) and c.func.attr in ("conj", "conjugate") and not c.args:
+                    return c.func.value
+                if astq.callee_name(prog, fi, c) in ("numpy.conj", "numpy.conjugate", "numpy.real") and len(c.args) == 1:
+                    return c.args[0]
+                return c
+        nf = astq.matnf(prog, fi, _NoConj().visit(_copy.deepcopy(strip(e))))
+        if nf is None:
+            return None
+        out = []
+        for x, i, t in nf:
+            while True:
+                if isinstance(x, ast.Call) and isinstance(x.func, ast.Attribute) and x.func.attr in ("conj", "conjugate") and not x.args:
+                    x = x.func.value
+                elif isinstance(x, ast.Call) and astq.callee_name(prog, fi, x) in ("numpy.conj", "numpy.conjugate") and len(x.args) == 1:
+                    x = x.args[0]
+                elif isinstance(x, ast.Attribute) and x.attr == "T":
+                    x, t = x.value, not t
+                else:
+                    break
+            if isinstance(x, ast.Name):
+                d_ = _Defs().get(x.id)
+                # a name for the (conjugate) transpose of another name: Xoh = Xo.conj().T
+                y, tt = d_, False
+                for _ in range(4):
+                    if isinstance(y, ast.Call) and isinstance(y.func, ast.Attribute) and y.func.attr in ("conj", "conjugate") and not y.args:
+                        y = y.func.value
+                    elif isinstance(y, ast.Call) and astq.callee_name(prog, fi, y) in ("numpy.conj", "numpy.conjugate") and len(y.args) == 1:
+                        y = y.args[0]
+                    elif isinstance(y, ast.Attribute) and y.attr == "T":
+                        y, tt = y.value, not tt
+                    else:
+                        break
+                if isinstance(y, ast.Name) and y is not d_:
+                    x, t = y, (t != tt)
+            out.append((astq.src(x, 200), i, t))
+        return out
+
+    # the accumulation M += <To> - <So^H Ro^-1 So> inside the loop over the rows of the spectrum
+    acc = [n for n in ast.walk(fi.node) if isinstance(n, ast.AugAssign) and isinstance(n.op, ast.Add) and isinstance(n.target, ast.Name)
+           and isinstance(n.value, ast.BinOp) and isinstance(n.value.op, ast.Sub)]
+    if len(acc) != 1:
+        run.ob("R-normal-eq", fi.qual, "accumulation M += To - So^H Ro^-1 So", None, f"{len(acc)} statements of the form `M += A - B` found: the assembly is written another way, nothing is read off it", file=f)
+        return
+    a = acc[0]
+    pm = astq.parent_map(fi.node)
+    loop = astq.enclosing(pm, a, (ast.For,))
+    keep = ()
+    to_x = astq.expr_at(fi, a, a.value.left)
+    sub_x = astq.expr_at(fi, a, a.value.right)
+    # names of the three factors as the code has them: expand only one level, so that Xo / Yo stay names
+    class _Defs(dict):
+        """the defining expression of a local as WRITTEN (one assignment in the function), not expanded any further"""
+        def get(self, k, d=None):
+            ds = [n.value for n in ast.walk(fi.node) if isinstance(n, ast.Assign) and len(n.targets) == 1 and isinstance(n.targets[0], ast.Name) and n.targets[0].id == k]
+            return ds[0] if len(ds) == 1 else d
+
+    def one_level(name_node):
+        return _Defs().get(name_node.id) if isinstance(name_node, ast.Name) else None
+    To_e = a.value.left
+    To_def = one_level(To_e) if isinstance(To_e, ast.Name) else To_e
+    t_at = atoms(To_def) if To_def is not None else None
+    okT = None
+    if t_at is not None and len(t_at) == 2:
+        (x1, i1, t1), (x2, i2, t2) = t_at
+        if x1 == x2 and not i1 and not i2:
+            okT = True if (t1 and not t2) else (False if (not t1 and t2) else None)
+    run.ob("R-normal-eq", fi.qual, "To = Yo^H Yo", okT, f"`{astq.src(To_def, 70) if To_def is not None else astq.src(To_e, 40)}`" + (": Yo Yo^H sums over the wrong index" if okT is False else ""),
+           witness=str(t_at)[:80], file=f, node=a)
+    Yo_name = t_at[0][0] if t_at else None
+    s_at = atoms(a.value.right)
+    okS = None
+    So_name = Xo_name = None
+    if s_at is not None and len(s_at) == 3:
+        (x1, i1, t1), (x2, i2, t2), (x3, i3, t3) = s_at
+        if x1 == x3 and not i1 and not i3 and i2:
+            okS = True if (t1 and not t3) else (False if (not t1 and t3) else None)
+            So_name = x1
+    run.ob("R-normal-eq", fi.qual, "subtracted term = So^H Ro^-1 So", okS, f"`{astq.src(a.value.right, 80)}`", witness=str(s_at)[:80], file=f, node=a)
+    env = _Defs()
+    for nm_, want, label in ((So_name, "XY", "So = Xo^H Yo"), (s_at[1][0] if s_at and len(s_at) == 3 else None, "XX", "Ro = Xo^H Xo")):
+        d_ = env.get(nm_) if nm_ else None
+        at = atoms(d_) if d_ is not None else None
+        ok = None
+        if at is not None and len(at) == 2 and not at[0][1] and not at[1][1]:
+            (x1, _, t1), (x2, _, t2) = at
+            if want == "XX":
+                ok = True if (x1 == x2 and t1 and not t2) else (False if x1 == x2 and not t1 and t2 else None)
+                Xo_name = x1 if ok else Xo_name
+            else:
+                ok = True if (t1 and not t2 and x2 == Yo_name and x1 != x2) else (False if (x1 == Yo_name and x2 != x1) else None)
+        run.ob("R-normal-eq", fi.qual, label, ok, f"`{astq.src(d_, 70) if d_ is not None else nm_}`", witness=str(at)[:80], file=f, node=a, config=label)
+    # the loop: over the rows of the spectrum; Yo from the row's columns
+    okL = None
+    why = "loop of the accumulation not found"
+    if loop is not None and isinstance(loop.target, ast.Name):
+        rng = astq.expr_at(fi, loop, loop.iter)
+        txt = astq.src(rng, 200).replace(" ", "")
+        ov = loop.target.id
+        yo_def = env.get(Yo_name) if Yo_name else None
+        sy_rows = any(isinstance(s_, ast.Subscript) and isinstance(s_.value, ast.Name) and s_.value.id == pSy and astq.index_elts(s_) and isinstance(astq.index_elts(s_)[0], ast.Name)
+                      and astq.index_elts(s_)[0].id == ov for b_ in loop.body for s_ in ast.walk(b_))
+        first = f"{pSy}.shape[0]" in txt
+        other = f"{pSy}.shape[1]" in txt
+        okL = True if (first and sy_rows) else (False if (other and sy_rows) else None)
+        why = f"`for {ov} in {astq.src(loop.iter, 40)}` with {pSy}[{ov}, ...] read in its body" if sy_rows else f"`for {ov} in {astq.src(loop.iter, 40)}`: the row of the spectrum it stands for was not found"
+        kr = [c for c in ast.walk(yo_def) if isinstance(c, ast.Call) and astq.callee_name(prog, fi, c) == "numpy.kron"] if yo_def is not None else []
+        run.ob("R-normal-eq", fi.qual, "Yo = -kron(basis row, spectrum column)", True if len(kr) == 1 and isinstance(astq.pm_parent(yo_def, kr[0]) if hasattr(astq, "pm_parent") else None, ast.UnaryOp) else
+               (None if len(kr) != 1 else _kron_sign(yo_def, kr[0])), f"`{astq.src(yo_def, 80) if yo_def is not None else Yo_name}`", file=f, node=a)
+    run.ob("R-normal-eq", fi.qual, "summed over the reference rows of the spectrum", okL, why, witness=why[:80], file=f, node=loop or a)
+
+
+def _kron_sign(expr, kr):
+    pm = astq.parent_map(expr)
+    par = pm.get(kr)
+    if isinstance(par, ast.UnaryOp) and isinstance(par.op, ast.USub):
+        return True
+    return None
+
+
 def check(prog, run):
     constraint(prog, run)
+    normal_equations(prog, run)
     run.rule("R-stateless", "the identification changes no module-level table and no memoised value in place: the coefficients of one call do not depend on the "
              "basis-function sign / order of the calls before it", 3)
     from ..effects import shared_state_rule
@@ -622,6 +767,9 @@ def pad(prog, run):
 
 PL = "functions.plscf"
 MUTANTS = [
+    ("C05-m13 To summed over the wrong index (Yo Yo^H)", "functions.plscf", "pLSCF", "To = np.real(np.dot(Yo.conj().T, Yo))", "To = np.real(np.dot(Yo, Yo.conj().T))"),
+    ("C05-m14 normal equations summed over the columns of the spectrum", "functions.plscf", "pLSCF", "Nref = Sy.shape[0]", "Nref = Sy.shape[1]"),
+    ("C05-m15 subtracted term with So in place of So^H", "functions.plscf", "pLSCF", "M += To - np.dot(So.T.conj(), np.linalg.solve(Ro, So))", "M += To - np.dot(So, np.linalg.solve(Ro, So.T.conj()))"),
     ("C05-m11 grid stops one line short of Nyquist", "functions.plscf", "pLSCF", "freq = np.linspace(0.0, fs / 2, Nf)", "freq = np.arange(Nf) * (fs / (2 * Nf))"),
     ("C05-m12 grid without the end point", "functions.plscf", "pLSCF", "freq = np.linspace(0.0, fs / 2, Nf)", "freq = np.linspace(0.0, fs / 2, Nf, endpoint=False)"),
     ("C05-m01 eigenvectors not blanked", PL, "ac2mp_poly", "phi = np.dot(C, Q)", "phi = np.dot(C, AuVett)"),
